@@ -1365,3 +1365,102 @@ def replay(ctx, case):
     cyclic = has_derivation_cycle(parser.rules)
     obs = run_case(w['grammar'], w['lexer'], w['text'], parser=parser)
     return property_verdict(parser, w['lexer'], w['text'], obs, cyclic, mp=opts.get('maybe_placeholders', True)) is not None
+
+
+# ----------------------------------------------------------------------------------------------
+# round 3: the add_family log of lark's parser against the instrumented model Forest/ExplicitAlgBuild
+# ----------------------------------------------------------------------------------------------
+IMPORTS_I = 'From LV Require Import Cfg.Grammar Earley.Spec Earley.Alg Forest.ExplicitBuild Forest.ExplicitAlgBuild.'
+
+
+def parse_logged(parser, text):
+    """runs parser.parse(text) (basic lexer) with SymbolNode.add_family and Parser.predict_and_complete wrapped.
+    returns (outcome code, log) with log = [(label, rule, left, right)] for every add_family call, labels as in
+    graph_families; None when the lexer itself rejects the text."""
+    from lark.parsers import earley_forest, earley
+    from lark.exceptions import UnexpectedCharacters, UnexpectedEOF, UnexpectedToken
+    log = []
+    calls = [0]
+    orig_add = earley_forest.SymbolNode.add_family
+    orig_pc = earley.Parser.predict_and_complete
+
+    def label(n):
+        if n.is_intermediate:
+            return ('I', n.s[0], n.s[1], n.start, n.end)
+        return ('S', str(n.s.name), n.start, n.end)
+
+    def add_family(self, lr0, rule, start, left, right):
+        lf = label(left) if left is not None else None
+        if right is None:
+            rt = None
+        elif isinstance(right, earley_forest.TokenNode):
+            rt = ('T', str(right.token.type), str(right.token.type), self.end - 1, self.end)
+        else:
+            rt = label(right)
+        log.append((label(self), rule, lf, rt))
+        return orig_add(self, lr0, rule, start, left, right)
+
+    def pc(self, i, *a, **kw):
+        calls[0] += 1
+        return orig_pc(self, i, *a, **kw)
+    earley_forest.SymbolNode.add_family = add_family
+    earley.Parser.predict_and_complete = pc
+    try:
+        try:
+            with_timeout(lambda: parser.parse(text))
+            code = 0
+        except UnexpectedCharacters:
+            return None
+        except UnexpectedEOF:
+            code = 1
+        except UnexpectedToken:
+            code = 2 + calls[0] - 1
+    finally:
+        earley_forest.SymbolNode.add_family = orig_add
+        earley.Parser.predict_and_complete = orig_pc
+    return code, log
+
+
+def coq_icase(parser, text, code, log):
+    """Coq term of one icase; None when the basic lexer cannot tokenise the whole text (the model has no lexer)"""
+    from lark.exceptions import UnexpectedInput
+    try:
+        lexed = basic_tokens(parser, text)
+    except UnexpectedInput:
+        return None
+    nts, tms = {}, {}
+
+    def nt(name):
+        return nts.setdefault(str(name), len(nts))
+
+    def tm(name):
+        return tms.setdefault(str(name), len(tms))
+
+    def sym(s):
+        return '(T %d)' % tm(s.name) if s.is_term else '(NT %d)' % nt(s.name)
+    nt('start')
+    rule_term = {}
+    rules = []
+    for r in parser.rules:
+        rule_term[r] = '(mkRule %d %s)' % (nt(r.origin.name), L([sym(x) for x in r.expansion]))
+        rules.append('(%d, %s)' % (nt(r.origin.name), L([sym(x) for x in r.expansion])))
+
+    def label(lb):
+        if lb[0] == 'I':
+            return '(NInter nat %s %d %d %d)' % (rule_term[lb[1]], lb[2], lb[3], lb[4])
+        if lb[0] == 'S':
+            return '(NSym nat %d %d %d)' % (nt(lb[1]), lb[2], lb[3])
+        return '(NTok nat %d %d %d %d)' % (tm(lb[1]), tm(lb[2]), lb[3], lb[4])
+
+    def opt(lb):
+        return 'None' if lb is None else '(Some %s)' % label(lb)
+    seen = set()
+    fams = []
+    for lb, r, l, rt in log:
+        k = (lb, r, l, rt)
+        if k in seen:
+            continue
+        seen.add(k)
+        fams.append('(%s, (%s, %s, %s))' % (label(lb), rule_term[r], opt(l), opt(rt)))
+    toks = [tm(t[0]) for t in lexed]
+    return '(%s, %d, %s, %d, %s)' % (L(rules), nt('start'), L(['%d' % t for t in toks]), code, L(fams))
